@@ -151,9 +151,10 @@ def opNA (toks : List String) : Option String := do
     if 7 < off then none else
     match ← fls? rest with
     | [h, act, adot, vel, lo, hi, p0, p2, p5, p7, p8, g5, b3, b4, b5] =>
-      let p : ActSlot Float := { dyntype := dyn, actlimited := lim, offset := off, lo := lo, hi := hi,
-        dynprm0 := p0, dynprm2 := p2, dynprm5 := p5, dynprm7 := p7, dynprm8 := p8, gainprm5 := g5,
-        biasprm3 := b3, biasprm4 := b4, biasprm5 := b5, velocity := vel }
+      let p : ActSlot Float :=
+        { dyntype := dyn, actlimited := lim, offset := (off : Int), lo := lo, hi := hi, dynprm0 := p0, dynprm2 := p2,
+          dynprm5 := p5, dynprm7 := p7, dynprm8 := p8, gainprm5 := g5, biasprm3 := b3, biasprm4 := b4, biasprm5 := b5,
+          velocity := vel }
       pure ("r " ++ floatBits (nextActivation p h act adot))
     | _ => none
   | _ => none
